@@ -76,7 +76,8 @@ Qed.
 Theorem ldelete_node_ok z A xn B a :
   LInv z (A ++ xn :: B) ->
   (forall j, (j < llevel z)%nat -> arr_get a j = upd_of A j) ->
-  exists z', ldelete_node z (le xn) a = Some z' /\ LInv z' (A ++ B) /\ LTight z' (A ++ B).
+  exists z', ldelete_node z (le xn) a = Some z' /\ LInv z' (A ++ B) /\ LTight z' (A ++ B) /\
+             (llevel z' <= llevel z)%nat.
 Proof.
   intros HI Harr. set (x := le xn).
   pose proof (inv_nodup z _ HI) as Hnd. pose proof (inv_level z _ HI) as Hlv.
@@ -172,7 +173,7 @@ Proof.
     destruct (Hnil l' ltac:(lia)) as [sp Hsp]. rewrite Hcell2 in Hsp.
     pose proof (lane_head_nil (col z1 l') l' (A ++ B) Head 0 sp (Hlanes1 l' ltac:(lia)) Hsp) as Hlow.
     rewrite Forall_forall in *. intros n Hn. specialize (H' n Hn). specialize (Hlow n Hn). lia. }
-  split; [|].
+  split; [|split; [|change (llevel z') with l'; lia]].
   { constructor.
     - exact HndAB.
     - exact Hheights.
